@@ -154,6 +154,8 @@ var exprCtxs = []nestCtx{
 	// the MySQL full-text predicate parses its search operand as a primary, re-entering itself without a parenthesised expression
 	// (its operand is a primary, so only the parenthesised variant composes with the other contexts)
 	{"match-against", "MATCH(a) AGAINST (", ")"}, {"match-against-paren", "MATCH(a) AGAINST ((", "))"},
+	// function calls by name (some names get their own argument grammar)
+	{"position-call", "POSITION(", ", x)"}, {"substring-call", "SUBSTRING(", ", 1, 2)"}, {"coalesce-call", "COALESCE(a, ", ")"}, {"cast-call", "CAST(", " AS INT)"}, {"extract-like-call", "DATE_PART('y', ", ")"},
 	// prefix operators re-entered through the right operand of a binary operator (no parenthesis in between)
 	{"not-cmp", "NOT a = ", ""}, {"not-plus", "NOT a + ", ""}, {"not-like", "NOT a LIKE ", ""}, {"not-json", "NOT a -> ", ""}, {"not-concat", "NOT a || ", ""},
 }
@@ -433,6 +435,43 @@ func c02Sequences(a *ChildArgs) {
 		"parentheses-150": "SELECT " + strings.Repeat("(", 150) + "1" + strings.Repeat(")", 150),
 		"calls-190":       "SELECT " + strings.Repeat("f(", 190) + "1" + strings.Repeat(")", 190),
 		"subqueries-60":   "SELECT " + strings.Repeat("(SELECT ", 60) + "1" + strings.Repeat(")", 60),
+	}
+	// statements that are fine themselves but contain many of the small constructs that take part in depth
+	// accounting: whatever they leave on the counter must be zero, or the limit of the next statement moves
+	preludes := map[string]string{
+		"signed-literals-300": "SELECT " + strings.Repeat("-1, +2, ", 150) + "0 FROM t WHERE a > -5 AND b IN (" + strings.Repeat("-1, ", 150) + "0)",
+		"not-and-casts-300":   "SELECT a FROM t WHERE " + strings.Repeat("NOT a = 1 AND CAST(b AS INT) = -1 AND ", 100) + "c = 1",
+		"insert-signed-rows":  "INSERT INTO t (a) VALUES " + strings.Repeat("(-1), ", 300) + "(0)",
+		"calls-and-cases-200": "SELECT " + strings.Repeat("f(-a), CASE WHEN x THEN -1 ELSE +1 END, ", 100) + "0 FROM t",
+	}
+	for pn, pre := range preludes {
+		for sn, sc := range second {
+			a.Rec.Count("evaluations", 1)
+			a.Rec.Distinct("cases", fmt.Sprintf("sequence/prelude/%s/%s", pn, sn))
+			wit := map[string]interface{}{"first": trunc(pre, 120), "then": trunc(sc, 120)}
+			p := parser.NewParser()
+			toks := func(sql string) []models.TokenWithSpan { t, _ := mustTokenizer().Tokenize([]byte(sql)); return t }
+			for k := 0; k < 2; k++ {
+				if _, err := p.ParseFromModelTokens(toks(pre)); err != nil {
+					a.Rec.Viol("C02/sequence/prelude/"+pn+"/rejected", "a flat statement is not refused for its width", firstLine(err.Error()), wit)
+				}
+			}
+			if _, err := p.ParseFromModelTokens(toks(sc)); err == nil {
+				a.Rec.Viol("C02/sequence/prelude/"+pn+"/then-"+sn+"/accepted-on-same-parser", "nesting beyond the limit is rejected by every statement a parser sees",
+					"after two flat statements full of signed operands the same parser accepts "+sn, wit)
+			}
+			p.Release()
+			// and inside one statement: the flat part first, the over-deep part last
+			if strings.HasPrefix(pre, "SELECT ") && strings.HasPrefix(sc, "SELECT ") {
+				one := strings.Replace(pre, "SELECT ", "SELECT "+strings.TrimPrefix(sc, "SELECT ")+", ", 1)
+				two := strings.Replace(pre, " FROM t", ", "+strings.TrimPrefix(sc, "SELECT ")+" FROM t", 1)
+				for _, q := range []string{one, two} {
+					if _, err := gosqlx.Parse(q); err == nil {
+						a.Rec.Viol("C02/sequence/prelude/"+pn+"/with-"+sn+"/accepted-in-one-statement", "nesting beyond the limit is rejected", "a statement holding both the flat list and the over-deep expression is accepted", map[string]interface{}{"sql": trunc(q, 300)})
+					}
+				}
+			}
+		}
 	}
 	tokens := func(sql string) []models.TokenWithSpan {
 		t, err := mustTokenizer().Tokenize([]byte(sql))
